@@ -18,4 +18,40 @@ def balancedSkip : Nat → Bytes → Nat → Option (Except LexErr Bytes)
     | .ok (.open, r) => balancedSkip fuel r (depth + 1)
     | .ok (_, r) => balancedSkip fuel r depth
 
+/-! ### lexeme-level reference (what both `skip_container`s walk over) -/
+
+/-- one lexeme at the head of `w`: its id and the bytes after its payload; `none` when the
+lexeme is not complete in `w`.  (Payload widths as in reader.rs:126-156.) -/
+def lexeme (w : Bytes) : Option (Nat × Bytes) :=
+  match readId w with
+  | .error _ => none
+  | .ok (id, data) =>
+    if id = CLOSE then some (id, data)
+    else if id = OPEN then some (id, data)
+    else if id = BOOL then (if 1 ≤ data.length then some (id, data.drop 1) else none)
+    else if id = F32 ∨ id = U32 ∨ id = I32 then (if 4 ≤ data.length then some (id, data.drop 4) else none)
+    else if id = F64 ∨ id = I64 ∨ id = U64 then (if 8 ≤ data.length then some (id, data.drop 8) else none)
+    else if id = QUOTED ∨ id = UNQUOTED then
+      match readString data with
+      | .ok (_, d) => some (id, d)
+      | .error _ => none
+    else some (id, data)
+
+/-- the container depth after a lexeme -/
+def depthAfter (id depth : Nat) : Nat :=
+  if id = CLOSE then depth - 1 else if id = OPEN then depth + 1 else depth
+
+/-- walking lexemes from `d` at `depth` finds the matching close and leaves `r` -/
+inductive Skips : Bytes → Nat → Bytes → Prop
+  | done {d r : Bytes} {depth : Nat} : lexeme d = some (CLOSE, r) → depth - 1 = 0 → Skips d depth r
+  | step {d d' r : Bytes} {depth id : Nat} : lexeme d = some (id, d') → ¬(id = CLOSE ∧ depth - 1 = 0) →
+      Skips d' (depthAfter id depth) r → Skips d depth r
+
+/-- every lexeme met while skipping from `d` can be decided inside `cap` bytes -/
+inductive SkipFits (cap : Nat) : Bytes → Nat → Prop
+  | mk (d : Bytes) (depth : Nat)
+      (head : ∀ k, k ≤ d.length → lexeme (d.take k) = none → k < cap)
+      (tail : ∀ id r, lexeme d = some (id, r) → ¬(id = CLOSE ∧ depth - 1 = 0) →
+        SkipFits cap r (depthAfter id depth)) : SkipFits cap d depth
+
 end Jomini.BinLexer
